@@ -323,8 +323,8 @@ def encodeWf (enc : List F → Except Err (List F)) (r : List F) (wf : Option (L
 
 /-- Everything one iteration of the loop of `LinearCodePCS::check` does before it looks at the
 claimed value, in the order of the code: length of `v`, presence / length of the well-formedness
-vector, leaf positions and Merkle paths, `E(v)`, `tensor`, `E(wf)`, the inner-product tests on the
-opened columns.  Returns the vector `a` of `tensor`. -/
+vector, leaf positions and Merkle paths, `E(v)` and its length against the announced `n_ext_cols`,
+`tensor`, `E(wf)`, the inner-product tests on the opened columns.  Returns the vector `a` of `tensor`. -/
 def checkPre (pp : Params F D) (point : Point F) (c : Comm D) (π : Proof F D) (o : Oracle F) :
     Except Err (List F) :=
   if π.opening.v.length ≠ c.nCols then .error .invalidCommitment else
@@ -337,6 +337,7 @@ def checkPre (pp : Params F D) (point : Point F) (c : Comm D) (π : Proof F D) (
       match pp.enc π.opening.v with
       | .error e => .error e
       | .ok w =>
+        if w.length ≠ c.nExtCols then .error .invalidCommitment else
         match tensor point c.nCols c.nRows with
         | .error e => .error e
         | .ok ab =>
